@@ -24,7 +24,16 @@ import (
 	"time"
 )
 
-const verifDir = "/verif"
+// verifDir is the directory the checks run from (the registered commands cd to /verif first;
+// a `vp run` snapshot runs from its own copy).
+var verifDir = func() string {
+	if d, err := os.Getwd(); err == nil {
+		if _, err := os.Stat(filepath.Join(d, "cmd", "vcheck")); err == nil {
+			return d
+		}
+	}
+	return "/verif"
+}()
 
 // Job is one exploration or enumeration, possibly sharded over processes.
 type Job struct {
